@@ -18,7 +18,7 @@ RULE = (
 )
 TIERS = {"quick": {"shards": 8, "n": 700, "budget_s": 200}, "thorough": {"shards": 16, "n": 3000, "budget_s": 2700}}
 FLOOR = {"quick": 60, "thorough": 4000}
-REQUIRED_LABELS = {"quick": ["pk:explicit", "pk:inferable", "pk:none", "has-fk", "kind:literal"], "thorough": []}
+REQUIRED_LABELS = {"quick": ["pk:explicit", "pk:inferable", "pk:none", "has-fk", "kind:literal", "table->class"], "thorough": []}
 ASSUMPTIONS = ["no SQLAlchemy import is needed: cdd works on the AST of the emitted source"]
 VARIANTS = ("sqlalchemy", "sqlalchemy_table", "sqlalchemy_hybrid")
 CELLS = [(s, f) for s in ("rest", "google", "numpydoc") for f in (True, False)]
@@ -169,6 +169,32 @@ def check_cell(r, case, cell):
             extra = set(b) - {"typ", "doc", "default", "x_typ"}
             if extra:
                 r.fail("keys", "%s %s: keys %s" % (tag, n, sorted(map(str, extra))))
+    # class <-> Table normalisation (anchor mechanism): the Table emission converted with sqlalchemy_table_to_class
+    # and rendered again must parse to the same columns as the Table itself
+    if "sqlalchemy_table" in backs:
+        tag = "[table->class,%s,force=%d,pk=%s]" % (style, force, pk)
+        try:
+            cdd = hops.load()["cdd"]
+            ir = gen_ir.to_ir(case, name="foo_tbl")
+            with core.quiet():
+                src, node = hops.emit_src("sqlalchemy_table", ir, docstring_format=style, force_pk_id=force)
+                tnode = ast.parse(src).body[0]
+                cnode = cdd.sqlalchemy.utils.emit_utils.sqlalchemy_table_to_class(tnode)
+                csrc = hops.load()["to_code"](cnode)
+                compile(csrc, "<table->class>", "exec")
+                cback = cdd.sqlalchemy.parse.sqlalchemy(ast.parse(csrc).body[0])
+
+            def cols(b):
+                return [(n, p.get("typ"), default_view(p), normdoc(p.get("doc"))) for n, p in b["params"].items()]
+
+            if cols(cback) != cols(backs["sqlalchemy_table"]):
+                diff = [(x, y) for x, y in zip(cols(cback), cols(backs["sqlalchemy_table"])) if x != y][:2]
+                r.fail("table-to-class", "%s columns differ: %r (names %s vs %s)" % (tag, diff, list(cback["params"]), list(backs["sqlalchemy_table"]["params"])))
+            r.label("table->class")
+        except SyntaxError as e:
+            r.fail("table-to-class", "%s not python: %s" % (tag, e))
+        except Exception as e:
+            r.fail("table-to-class", "%s raises %s" % (tag, core.exc_bucket(e)))
     if len(backs) == 3:
         def strip(b):
             return [(n, {k: v for k, v in p.items() if k not in ("x_typ", "server_default")}) for n, p in b["params"].items()]
